@@ -953,9 +953,8 @@ func genNearMiss(a *Args, rng *Rng) []caseSpec {
 // through a symbolic link), its own executable, another file of it, the directory / a file of ANOTHER plugin
 // holding an executable named for foo, a link into another plugin's directory, links to directories without
 // trailing separator, missing directories and files - with and without overwrite, alone and inside histories
-// with ordinary installations before and after. Not generated (known to violate the property on the
-// unchanged tree, see docs/audit/C20.md): a directory of the root whose only candidate is not executable,
-// and a link named for a plugin into that plugin's own directory.
+// with ordinary installations before and after. Not generated (docs/audit/C20.md): a directory of the
+// root whose only candidate is not executable (the documented chmod of a directory source then changes the root).
 func genPlaces(a *Args, rng *Rng) []caseSpec {
 	var out []caseSpec
 	bin := func(n string) string { return "notation-" + n }
@@ -980,6 +979,12 @@ func genPlaces(a *Args, rng *Rng) []caseSpec {
 		{Kind: "linkfile", Link: bin("foo"), Name: "bar", File: fileSpec{Name: bin("foo")}},
 		{Kind: "linkfile", Link: bin("bar"), Name: "bar", File: fileSpec{Name: "nope"}},
 		{Kind: "linkfile", Link: "lib.so", Name: "foo", File: fileSpec{Name: "lib.so"}},
+		// ccdc027: links that resolve into the plugin's own directory
+		{Kind: "linkfile", Link: bin("foo"), Name: "foo", File: fileSpec{Name: bin("foo")}}, // link -> own executable
+		{Kind: "linkfile", Link: bin("qux"), Name: "qux", File: fileSpec{Name: bin("qux")}}, // ... of a plugin with an invalid version
+		{Kind: "linkfile", Link: bin("baz"), Name: "foo", File: fileSpec{Name: bin("foo")}}, // named for another plugin: misnamed metadata
+		{Kind: "linkfile", Link: bin("bar"), Name: "bar", File: fileSpec{Name: bin("bar")}}, // own executable of a directory with two candidates
+		{Kind: "linkdir", Name: "qux"},
 	}
 	for _, fooVer := range []string{"1.0.0", "5.0.0"} { // foo below / above what bar and baz hold
 		for _, s := range singles {
@@ -1012,6 +1017,8 @@ func genPlaces(a *Args, rng *Rng) []caseSpec {
 		b.install(inFile("bar", bin("foo")), ow) // gone
 		b.install(inDir("bar", 0), true)
 		b.install(inDir("foo", 0), ow)
+		b.install(srcSpec{Kind: "linkfile", Link: bin("foo"), Name: "foo", File: fileSpec{Name: bin("foo")}}, ow) // link -> own executable
+		b.install(fileSrc(bin("foo"), 0o755, b.okSalt("foo", "9.9.9", 7)), false)                                // still judged against what is there
 		b.uninstall("foo")
 		b.install(inDir("foo", 0), true)
 		out = append(out, b.done())
